@@ -18,6 +18,17 @@ thread_local! {
         const { std::cell::RefCell::new(Vec::new()) };
 }
 
+#[cfg(rash_verif)]
+thread_local! {
+    /// Verification hook: normalised arguments and option descriptors (kind, short, long, default)
+    /// of the last `parse` call: the inputs of its final matching stage.
+    #[allow(clippy::type_complexity)]
+    pub static VERIF_TAIL_INPUTS: std::cell::RefCell<(
+        Vec<String>,
+        Vec<(String, Option<String>, Option<String>, Option<String>)>,
+    )> = const { std::cell::RefCell::new((Vec::new(), Vec::new())) };
+}
+
 /// Parse file doc and args to return docopts variables.
 /// Supports help subcommand to print help and exit.
 pub fn parse(file: &str, args: &[&str]) -> Result<Value> {
@@ -57,6 +68,10 @@ pub fn parse(file: &str, args: &[&str]) -> Result<Value> {
     expanded_usages.sort_by(|a, b| b.cmp(a));
     #[cfg(rash_verif)]
     VERIF_EXPANDED_USAGES.with(|t| *t.borrow_mut() = expanded_usages.clone());
+    #[cfg(rash_verif)]
+    VERIF_TAIL_INPUTS.with(|t| {
+        *t.borrow_mut() = (args_with_normalized_options.clone(), options.verif_dump())
+    });
     trace!("expanded usages: {expanded_usages:?}");
 
     let arg_kind_set = RegexSet::new([
